@@ -15,21 +15,36 @@ from tradingenv.broker.broker import EndOfEpisodeError
 SECONDS_IN_YEAR = 365 * 24 * 3600
 
 
+def _drop_cash(b, vec):
+    vec = list(vec)
+    pos = b.case.get("cash_pos")
+    if pos is not None:
+        del vec[pos % (b.n + 1)]       # any entry for the cash contract is ignored
+    return vec
+
+
 def expected_allocation(b, action):
-    """Allocation denoted by an action: {contract index: value} over non-zero entries."""
+    """Allocation denoted by an action: {contract index: value} over non-zero, non-cash entries."""
     sp = b.case.get("space", ["box"])
     if sp[0] == "discrete":
         vec = sp[1][int(action)]
     else:
         vec = action
-    return {i: float(v) for i, v in enumerate(vec) if float(v) != 0.0}
+    return {i: float(v) for i, v in enumerate(_drop_cash(b, vec)) if float(v) != 0.0}
 
 
 def null_allocation(b):
     sp = b.case.get("space", ["box"])
     if sp[0] == "discrete":
-        return {i: float(v) for i, v in enumerate(sp[1][0]) if float(v) != 0.0}
+        return {i: float(v) for i, v in enumerate(_drop_cash(b, sp[1][0])) if float(v) != 0.0}
     return {}
+
+
+def as_weights(b):
+    sp = b.case.get("space", ["box"])
+    if sp[0] == "discrete":
+        return sp[2] if len(sp) > 2 else True
+    return sp[3] if len(sp) > 3 else True
 
 
 def replay(case, res, checks):
@@ -154,6 +169,27 @@ def replay(case, res, checks):
         if prev_book is not None and (prev_book[0] != bid or prev_book[1] != ask):
             stats["quote_changed_between"] += 1
         prev_book = (list(bid), list(ask))
+        if "target" in checks:
+            alloc = {index_of(b, c): float(v) for c, v in entry.allocation.items()}
+            pre = float(entry.context_pre.nlv)
+            hq_post = entry.context_post.nr_contracts
+            for i in range(n):
+                qp = float(hq_post.get(b.contracts[i], 0.0))
+                w = alloc.get(i, 0.0)
+                if w == 0.0:
+                    if qp != 0.0 and b.case.get("threshold", 0.0) == 0.0:
+                        res.fail("execution %d: contract %d has no entry in the executed allocation but keeps position %r" % (j, i, qp))
+                        return stats
+                elif as_weights(b):
+                    px = ask[i] if w > 0 else bid[i]
+                    if b.case.get("threshold", 0.0) == 0.0 and not B.close(qp * b.mult[i] * px, w * pre, rel=1e-9, abs_=1e-9 * abs(pre)):
+                        res.fail("execution %d: contract %d position x multiplier x quote = %.12g, weight x pre-trade NLV = %.12g" % (
+                            j, i, qp * b.mult[i] * px, w * pre))
+                        return stats
+                else:
+                    if not B.close(qp, w, rel=1e-12, abs_=1e-9):
+                        res.fail("execution %d: contract %d holds %r contracts, the action denotes %r" % (j, i, qp, w))
+                        return stats
         if "ledger" in checks:
             hq = entry.context_post.nr_contracts
             for i in range(n):
